@@ -363,3 +363,183 @@ def normalisation_twins(prefix: str, relpath: str, defpath: str, stmt: str, targ
     for n, src in bad:
         out.append(Variant(f"{prefix}-normalise-{n}", "bad", replace_stmt(relpath, defpath, stmt, src), list(expected)))
     return out
+
+
+
+# ----------------------------------------------------------------------------------------------------------------------
+# Whole-package benign rewrites: the same exact equivalence applied to every occurrence in every module at once.  One such
+# variant exercises every rule of a property against dozens of sites; the verdict of the property must not move.
+
+def _rewrite_all(transformer_factory) -> Callable[[Sources], Optional[Sources]]:
+    def apply(sources: Sources) -> Optional[Sources]:
+        out = dict(sources)
+        n = 0
+        for rel, src in sources.items():
+            try:
+                tree = ast.parse(src)
+            except SyntaxError:
+                continue
+            t = transformer_factory()
+            tree = t.visit(tree)
+            if t.count:
+                ast.fix_missing_locations(tree)
+                out[rel] = ast.unparse(tree) + "\n"
+                n += t.count
+        return out if n else None
+    return apply
+
+
+def _is_none_cmp(node):
+    return (isinstance(node, ast.Compare) and len(node.ops) == 1 and isinstance(node.ops[0], (ast.Is, ast.IsNot))
+            and isinstance(node.comparators[0], ast.Constant) and node.comparators[0].value is None)
+
+
+class _NoneDoubleNegation(ast.NodeTransformer):
+    """X is None -> not (X is not None);  X is not None -> not (X is None)"""
+    def __init__(self):
+        self.count = 0
+
+    def visit_Compare(self, node):
+        self.generic_visit(node)
+        if _is_none_cmp(node):
+            self.count += 1
+            flipped = ast.Compare(left=node.left, ops=[ast.IsNot() if isinstance(node.ops[0], ast.Is) else ast.Is()], comparators=node.comparators)
+            return ast.copy_location(ast.UnaryOp(op=ast.Not(), operand=flipped), node)
+        return node
+
+
+class _NoneYoda(ast.NodeTransformer):
+    """X is None -> None is X;  X is not None -> None is not X"""
+    def __init__(self):
+        self.count = 0
+
+    def visit_Compare(self, node):
+        self.generic_visit(node)
+        if _is_none_cmp(node):
+            self.count += 1
+            return ast.copy_location(ast.Compare(left=ast.Constant(value=None), ops=node.ops, comparators=[node.left]), node)
+        return node
+
+
+class _NoneIsinstance(ast.NodeTransformer):
+    """X is None -> isinstance(X, type(None));  X is not None -> not isinstance(X, type(None))"""
+    def __init__(self):
+        self.count = 0
+
+    def visit_Compare(self, node):
+        self.generic_visit(node)
+        if _is_none_cmp(node):
+            self.count += 1
+            call = ast.Call(func=ast.Name(id="isinstance", ctx=ast.Load()),
+                            args=[node.left, ast.Call(func=ast.Name(id="type", ctx=ast.Load()), args=[ast.Constant(value=None)], keywords=[])], keywords=[])
+            return ast.copy_location(call if isinstance(node.ops[0], ast.Is) else ast.UnaryOp(op=ast.Not(), operand=call), node)
+        return node
+
+
+class _InvertIfElse(ast.NodeTransformer):
+    """if c: A else: B  ->  if not c: B else: A   (every if that has an else branch; `elif` chains are nested ifs)"""
+    def __init__(self):
+        self.count = 0
+
+    def visit_If(self, node):
+        self.generic_visit(node)
+        if node.orelse:
+            self.count += 1
+            t = node.test
+            test = t.operand if (isinstance(t, ast.UnaryOp) and isinstance(t.op, ast.Not)) else ast.UnaryOp(op=ast.Not(), operand=t)
+            return ast.copy_location(ast.If(test=test, body=node.orelse, orelse=node.body), node)
+        return node
+
+    def visit_IfExp(self, node):
+        self.generic_visit(node)
+        self.count += 1
+        t = node.test
+        test = t.operand if (isinstance(t, ast.UnaryOp) and isinstance(t.op, ast.Not)) else ast.UnaryOp(op=ast.Not(), operand=t)
+        return ast.copy_location(ast.IfExp(test=test, body=node.orelse, orelse=node.body), node)
+
+
+class _NumpyFullName(ast.NodeTransformer):
+    """`import numpy as np` -> `import numpy`, and every `np.<x>` -> `numpy.<x>` (modules that never re-bind `np`)"""
+    def __init__(self):
+        self.count = 0
+        self.alias = None
+
+    def visit_Module(self, node):
+        stores = {n.id for n in ast.walk(node) if isinstance(n, ast.Name) and isinstance(n.ctx, (ast.Store, ast.Del))}
+        for st in ast.walk(node):
+            if isinstance(st, ast.Import):
+                for a in st.names:
+                    if a.name == "numpy" and a.asname and a.asname not in stores and "numpy" not in stores:
+                        self.alias = a.asname
+                        a.asname = None
+        if self.alias:
+            self.generic_visit(node)
+        return node
+
+    def visit_Name(self, node):
+        if node.id == self.alias and isinstance(node.ctx, ast.Load):
+            self.count += 1
+            return ast.copy_location(ast.Name(id="numpy", ctx=ast.Load()), node)
+        return node
+
+
+class _LenTests(ast.NodeTransformer):
+    """len(X) == 0 -> len(X) < 1;  len(X) > 0 / != 0 -> len(X) >= 1;  len(X) < n stays (identities on non-negative ints)"""
+    def __init__(self):
+        self.count = 0
+
+    def visit_Compare(self, node):
+        self.generic_visit(node)
+        if len(node.ops) == 1 and isinstance(node.left, ast.Call) and isinstance(node.left.func, ast.Name) and node.left.func.id == "len" \
+                and isinstance(node.comparators[0], ast.Constant) and node.comparators[0].value == 0 and not isinstance(node.comparators[0].value, bool):
+            op = node.ops[0]
+            new = ast.Lt() if isinstance(op, ast.Eq) else (ast.GtE() if isinstance(op, (ast.Gt, ast.NotEq)) else None)
+            if new is not None:
+                self.count += 1
+                return ast.copy_location(ast.Compare(left=node.left, ops=[new], comparators=[ast.Constant(value=1)]), node)
+        return node
+
+
+class _AxisPositional(ast.NodeTransformer):
+    """np.sum(a, axis=K) -> np.sum(a, K) for the reductions whose second positional parameter is the axis"""
+    REDUCTIONS = {"sum", "mean", "max", "min", "amax", "amin", "argmax", "argmin", "all", "any", "prod", "cumsum", "std", "var", "median"}
+
+    def __init__(self):
+        self.count = 0
+
+    def visit_Call(self, node):
+        self.generic_visit(node)
+        f = node.func
+        if isinstance(f, ast.Attribute) and isinstance(f.value, ast.Name) and f.value.id in ("np", "numpy") and f.attr in self.REDUCTIONS and len(node.args) == 1 \
+                and node.keywords and node.keywords[0].arg == "axis":
+            self.count += 1
+            ax = node.keywords[0].value
+            return ast.copy_location(ast.Call(func=f, args=[node.args[0], ax], keywords=node.keywords[1:]), node)
+        return node
+
+
+class _IfExpAssignAsStatement(ast.NodeTransformer):
+    """x = A if c else B  ->  if c: x = A / else: x = B   (plain single-name assignments)"""
+    def __init__(self):
+        self.count = 0
+
+    def visit_Assign(self, node):
+        if len(node.targets) == 1 and isinstance(node.targets[0], ast.Name) and isinstance(node.value, ast.IfExp):
+            self.count += 1
+            v = node.value
+            mk = lambda val: ast.copy_location(ast.Assign(targets=[ast.Name(id=node.targets[0].id, ctx=ast.Store())], value=val), node)  # noqa: E731
+            return ast.copy_location(ast.If(test=v.test, body=[mk(v.body)], orelse=[mk(v.orelse)]), node)
+        return node
+
+
+def global_benign_variants() -> List[Variant]:
+    return [
+        Variant("global-benign-none-tests-double-negation", "benign", _rewrite_all(_NoneDoubleNegation)),
+        Variant("global-benign-none-tests-yoda", "benign", _rewrite_all(_NoneYoda)),
+        Variant("global-benign-none-tests-isinstance", "benign", _rewrite_all(_NoneIsinstance)),
+        Variant("global-benign-if-else-inverted", "benign", _rewrite_all(_InvertIfElse)),
+        Variant("global-benign-numpy-full-name", "benign", _rewrite_all(_NumpyFullName)),
+        Variant("global-benign-len-tests", "benign", _rewrite_all(_LenTests)),
+        Variant("global-benign-axis-positional", "benign", _rewrite_all(_AxisPositional)),
+        Variant("global-benign-ifexp-assign-as-statement", "benign", _rewrite_all(_IfExpAssignAsStatement)),
+    ]
